@@ -11,7 +11,13 @@ for f in sorted(glob.glob('/verif/seeded/*/meta.json')):
         if r["detected"]:
             det.append("%s (%s)" % (c, ", ".join(k for k, _ in r["violation_classes"][:3])))
     note = m.get("history", "")
-    rows.append("| %s | %s | %s | %s | %s |" % (m["id"], m["what"].replace("|", "/"), m["needs_to_manifest"].replace("|", "/"), "; ".join(det) if det else "**not caught**", note))
+    if note.startswith("missed by the check as it stood"):
+        note = "missed at first; caught after strengthening"
+    needs = m["needs_to_manifest"].replace("|", "/")
+    if len(needs) > 240:
+        needs = needs[:240].rsplit(" ", 1)[0] + " …"
+    rnd = m.get("round", 1)
+    rows.append("| %s | %d | %s | %s | %s | %s |" % (m["id"], rnd, m["what"].replace("|", "/"), needs, "; ".join(det) if det else "**not caught**", note))
 sec = """
 ### 9.4 Seeded changes (independent sub-agents) and which checks catch them
 
@@ -23,8 +29,39 @@ and ran the property's quick check against the patched worktree. `seeded/<id>/` 
 patch.diff, the demonstration (`*_test.go.txt`), the author's notes and meta.json.
 "history" says when a change was first missed and what was strengthened.
 
-| id | change | needs | caught by (quick, seed 1) | history |
-|---|---|---|---|---|
+Three rounds were run. Round 1 (ids -A/-B, all 41 properties): authors had only the property
+text. Round 2 (-C/-D, all 41 properties) and round 3 (-E/-F, the 20 properties whose checks had
+needed strengthening most) additionally listed the kinds of change the earlier rounds had
+produced and asked for different functions, mechanisms and triggers. A change that the check
+missed was never discarded: the check was strengthened for the *scenario class* (not the
+patch), validated against a differently written break of the same class in a scratch worktree,
+re-run for silence on /repo at seeds 1, 2, 3, 7, 42, and only then re-evaluated against the
+seed. Misses at first evaluation: round 1 27 of 82, round 2 40 of 82, round 3 26 of 40 —
+later rounds were harder because their authors steered towards entry points, configurations
+and multi-step histories the earlier ones had not used. What the strengthening added, by theme:
+
+* *state carried across operations on re-used objects*: Read twice without Reset (C29, C08, C09),
+  pooled Response/Request/RequestCtx across calls and across connections (C07, C11, C34),
+  recycled cookie/arg slots (C28, C29), wrappers pooled too early (C14, C21);
+* *configuration × input interplay*: DisableHeaderNamesNormalizing with non-canonical names
+  (C01, C10, C20, C36), ReduceMemoryUsage with pipelining / Expect: 100-continue (C02, C03, C17),
+  SecureErrorLogMessage (C07), custom ErrorHandler (C10), NextProto/TLS (C12), LIFO pools and
+  multi-address TLS clients (C21), several Serve calls on one Server (C16);
+* *less used entry points reaching the same mechanism*: WriteString/bufio on pipes (C33),
+  BodyWriteTo and compress wrappers on FS ranges (C24), split Header.Read + ReadBody (C08),
+  URI.Update (C26), wire-parsed requests through DoRedirects (C20), opt-out BodyWriterTo streams (C22);
+* *error, timeout and fault paths*: Close() returning an error (C14, C34), failing writes inside the
+  hijack block (C14), persistent read errors mid-trailer (C08), failed destination writes (C22),
+  seek faults and non-seekable fs.FS (C25), slow resolver / slow dial against the deadline (C19, C41);
+* *forced interleavings at hooks*: wp.afterClose window (C14), parked LBClient scans during
+  RemoveClients (C40), aged idle connections racing Shutdown (C15), tail flush racing Close (C33, C34).
+
+Several of these workloads found further genuine defects in the pinned tree or regressions of
+earlier repairs (§9.2), e.g. the per-IP wrapper recycled before StateClosed, the unread-body flag
+travelling through the ctx pool, Shutdown blocking on a connection idle after a timeout response.
+
+| id | round | change | needs | caught by (quick, seed 1) | history |
+|---|---|---|---|---|---|
 """ + "\n".join(rows) + "\n"
 s = open('/verif/DESIGN.md').read()
 if '\n### 9.4' in s:
